@@ -51,6 +51,20 @@ fn contains(b: &Bound, v: &Q) -> bool {
     lo_ok && hi_ok
 }
 
+fn intervals_deep() -> Vec<Iv> {
+    let inf = f64::INFINITY;
+    let e = [-inf, -2.0, -1.0, -0.5, 0.0, 0.5, 1.0, 3.0, inf];
+    let mut out = vec![];
+    for l in e {
+        for u in e {
+            if l <= u && l != inf && u != -inf {
+                out.push((X(l), X(u)));
+            }
+        }
+    }
+    out
+}
+
 fn intervals() -> Vec<Iv> {
     let inf = f64::INFINITY;
     let e = [-inf, -2.0, -0.5, 0.0, 0.5, 3.0, inf];
@@ -302,8 +316,9 @@ fn reduced_fractions(qmax: i64, pmax: i64) -> Vec<(i64, i64)> {
 pub fn run(ctx: &Ctx) -> Finish {
     // the full sweep takes ~6 s, so both tiers run it
     let t = true;
-    let ivs = intervals();
-    assert_eq!(ivs.len(), 26);
+    let deep = ctx.tier == Tier::Thorough;
+    let ivs = if deep { intervals_deep() } else { intervals() };
+    ctx.note("intervals", json!(ivs.len()));
     // --- interval operations
     ctx.par(ivs.len() * ivs.len(), |l, i| {
         let (a, b) = (ivs[i / ivs.len()], ivs[i % ivs.len()]);
@@ -358,7 +373,8 @@ pub fn run(ctx: &Ctx) -> Finish {
         fs = fs.into_iter().step_by(9).collect();
     }
     ctx.note("evaluate_bound_functions", json!(fs.len()));
-    let opts: Vec<Option<Iv>> = std::iter::once(None).chain(ivs.iter().map(|i| Some(*i))).collect();
+    let base_ivs = intervals();
+    let opts: Vec<Option<Iv>> = std::iter::once(None).chain(base_ivs.iter().map(|i| Some(*i))).collect();
     ctx.par(fs.len(), |l, i| {
         let f = &fs[i];
         for a in &opts {
